@@ -25,6 +25,7 @@ const (
 	PScribbled
 	POverlap
 	PExpiredSeen
+	PV6Owners
 )
 
 var ProbeNames = map[int]string{
@@ -34,13 +35,21 @@ var ProbeNames = map[int]string{
 	PScribbled:                "caller_overwrote_a_query_result",
 	POverlap:                  "two_clients_had_overlapping_operations",
 	PExpiredSeen:              "operation_met_expired_unswept_name",
+	PV6Owners:                 "run_with_ipv6_owner_addresses",
 }
 
 var names = [...]string{"WORKSTATION", "FILESRV", "DOMAIN"}
 var ttlChoices = [...]int64{0, 20e9, 60e9, 24 * 3600e9}
 var jumpChoices = [...]int64{1e9 + 1, 31e9 + 1, 61e9 + 1, 25*3600e9 + 1}
 
+// v6Addrs: in this run the owners are three distinct IPv6 addresses (the form of an address is then irrelevant).
+// Set per run; runs of one worker process are sequential.
+var v6Addrs bool
+
 func addrOf(i, form int) net.IP {
+	if v6Addrs {
+		return net.IP{0xfd, 0, 0, 0, 0, 0, 0, 0, 0, 0, 0, 0, 0, 0, 0, byte(1 + i)}
+	}
 	ip := net.IP{10, 0, 0, byte(1 + i)}
 	if form == 1 {
 		return ip.To16()
@@ -49,6 +58,14 @@ func addrOf(i, form int) net.IP {
 }
 
 func addrIndex(ip net.IP) int {
+	if len(ip) == 16 && ip[0] == 0xfd && ip[15] >= 1 && ip[15] <= 3 {
+		for _, b := range ip[1:15] {
+			if b != 0 {
+				return -1
+			}
+		}
+		return int(ip[15]) - 1
+	}
 	v4 := ip.To4()
 	if v4 == nil || v4[0] != 10 || v4[1] != 0 || v4[2] != 0 || v4[3] < 1 || v4[3] > 3 {
 		return -1
@@ -283,6 +300,10 @@ func Run(seed uint64, index int64, o hx.Opts) *hx.Result {
 			clock.ops = append(clock.ops, In{Kind: OpJump, TTL: jumps[i]})
 		}
 		scribbleRun := hx.G(3) == 0
+		v6Addrs = hx.G(4) == 0
+		if v6Addrs {
+			rt.Probe(PV6Owners)
+		}
 		if o.Scenario != "" {
 			res.Scenario = o.Scenario
 		} else {
